@@ -121,10 +121,14 @@ ENVS = [
 ]
 
 
-def record(d, env):
-    """evaluate the formula of descriptor d with hooks on; returns trace"""
+def record(d, env, pre=()):
+    """evaluate the formula of descriptor d with hooks on; returns trace.
+    pre: cells evaluated on their own before the formula is (they are in the
+    model before anything that reads them is built)"""
     from pycel import _verif
     m = build_model(d, env)
+    for a in pre:
+        m.evaluate(a)
     events = []
     top = f'{HOME}!{FORMULA_AT}'
 
@@ -157,8 +161,21 @@ def record(d, env):
     cell = m.cell_map[top]
     anc = [rect_of(n.address) for n in nx.ancestors(m.dep_graph, cell)] \
         if cell in m.dep_graph else []
-    events.append(dict(ev='final', f=rect_of(top), ancestors=anc, influences=[]))
+    built = [rect_of(a) for a, c in m.cell_map.items() if ':' not in a]
+    events.append(dict(ev='final', f=rect_of(top), ancestors=anc, influences=[],
+                       built=built, pre=list(pre)))
     return m, events, value
+
+
+def cells_in(rects, limit=3):
+    """the single cells of the 3x3 data area inside the rectangles"""
+    out = []
+    for q in rects:
+        for c in range(q[1], min(q[3], limit) + 1):
+            for r in range(q[2], min(q[4], limit) + 1):
+                if [q[0], c, r, c, r] not in out:
+                    out.append([q[0], c, r, c, r])
+    return out
 
 
 def explain(events):
@@ -177,6 +194,11 @@ def explain(events):
             for r in e['influences']:
                 if not any(contains(q, r) for q in e['ancestors']):
                     return f'influencing rectangle {r} is not among the graph ancestors {e["ancestors"]}'
+            for c in e['infcells']:
+                if c not in e['ancestors']:
+                    return (f'cell {c} can influence the formula and is in the model, but is '
+                            f'not a graph ancestor (cells evaluated before the formula: '
+                            f'{e.get("pre")}; ancestors {e["ancestors"]})')
     return None
 
 
@@ -192,8 +214,14 @@ def batch_job(arg):
     for rec in descs:
         d = rec['d']
         for ei, env in enumerate(ENVS):
+            pre = []
+            if ei == 1:
+                # members of the referenced ranges which enter the model first
+                cand = cells_in(rec['influences'])
+                for q in rnd.sample(cand, min(len(cand), rnd.choice((1, 2)))):
+                    pre.append(f"'{q[0]}'!{COLS[q[1] - 1]}{q[2]}")
             try:
-                m, events, value = record(d, env)
+                m, events, value = record(d, env, pre)
             except Exception as exc:          # noqa
                 # C04 speaks about the reads of an evaluation, not about whether
                 # the formula evaluates: counted and reported, not judged here
@@ -204,6 +232,9 @@ def batch_job(arg):
                         f'{type(exc).__name__}: {str(exc)[-160:]}')
                 continue
             events[-1]['influences'] = rec['influences']
+            # every existing cell inside an influencing rectangle must itself be an ancestor
+            events[-1]['infcells'] = [c for c in events[-1].pop('built')
+                                      if any(contains(q, c) for q in rec['influences'])]
             traces.append(events)
             meta.append((d, ei, render(d)))
             out['reads'] += sum(e['ev'] == 'read' for e in events)
